@@ -1093,6 +1093,8 @@ func (c *Conn) handleBdat(arg string) {
 
 		c.reset()
 	} else {
+		c.lineLimitReader.LineLimit = c.server.MaxLineLength
+
 		c.writeResponse(250, EnhancedCode{2, 0, 0}, "Continue")
 	}
 }
